@@ -67,9 +67,12 @@ func (area) Run(line string) string {
 	subst := func(s string) string { return strings.ReplaceAll(s, placeholder, base) }
 	var entries []entry
 	limit := -1
+	via := ""
 	for _, w := range f[2:] {
 		p := strings.Split(w, ":")
 		switch {
+		case p[0] == "v" && len(p) == 2:
+			via = p[1]
 		case p[0] == "w" && len(p) == 2:
 			limit = hx.Atoi(p[1])
 		case p[0] == "i" && p[1] == "d" && len(p) == 4:
@@ -92,24 +95,72 @@ func (area) Run(line string) string {
 		}
 	}
 	dst := filepath.Join(t, "dst")
-	var xerr error
+	var raw []byte
+	var bad bool
 	if isZip {
-		zr, bad := buildZip(entries)
-		if bad {
-			return "bad-op"
-		}
-		restore := writeLimit(limit)
-		xerr = xzip.ExtractWithMask(zr, dst, os.FileMode(mask))
-		restore()
+		raw, bad = buildZip(entries)
 	} else {
-		tr, bad := buildTar(entries)
-		if bad {
-			return "bad-op"
-		}
-		restore := writeLimit(limit)
-		xerr = xtar.ExtractWithMask(tr, dst, os.FileMode(mask))
-		restore()
+		raw, bad = buildTar(entries)
 	}
+	if bad {
+		return "bad-op"
+	}
+	// the archive FILE of the *Archive* forms lives outside the sandbox (it must not show up in the tree)
+	src := ""
+	switch via {
+	case "a", "am", "cut":
+		af, cerr := os.CreateTemp("/tmp", "c19a-")
+		must(cerr)
+		src = af.Name()
+		defer os.Remove(src)
+		if via == "cut" && len(raw) > 100 {
+			raw = raw[:100]
+		}
+		_, werr := af.Write(raw)
+		must(werr)
+		must(af.Close())
+	case "missing":
+		src = filepath.Join("/tmp", base+"-no-such-archive")
+	case "", "x":
+	default:
+		return "bad-op"
+	}
+	fdsBefore := countFDs()
+	restore := writeLimit(limit)
+	var xerr error
+	fm := os.FileMode(mask)
+	switch {
+	case via == "" && !isZip:
+		xerr = xtar.ExtractWithMask(tar.NewReader(bytes.NewReader(raw)), dst, fm)
+	case via == "" && isZip:
+		xerr = xzip.ExtractWithMask(zipReader(raw), dst, fm)
+	case via == "x" && !isZip:
+		xerr = xtar.Extract(tar.NewReader(bytes.NewReader(raw)), dst)
+	case via == "x" && isZip:
+		xerr = xzip.Extract(zipReader(raw), dst)
+	case via == "a" && !isZip:
+		xerr = xtar.ExtractArchive(src, dst)
+	case via == "a" && isZip:
+		xerr = xzip.ExtractArchive(src, dst)
+	case via == "am" && !isZip:
+		xerr = xtar.ExtractArchiveWithMask(src, dst, fm)
+	case via == "am" && isZip:
+		xerr = xzip.ExtractArchiveWithMask(src, dst, fm)
+	case !isZip: // missing / cut: the mask word selects the form (0 = ExtractArchive)
+		if mask == 0 {
+			xerr = xtar.ExtractArchive(src, dst)
+		} else {
+			xerr = xtar.ExtractArchiveWithMask(src, dst, fm)
+		}
+	default:
+		if mask == 0 {
+			xerr = xzip.ExtractArchive(src, dst)
+		} else {
+			xerr = xzip.ExtractArchiveWithMask(src, dst, fm)
+		}
+	}
+	restore()
+	leaked := countFDs() != fdsBefore
 	res := "ok"
 	if xerr != nil {
 		res = "err"
@@ -117,6 +168,9 @@ func (area) Run(line string) string {
 	d := dump(t, base)
 	if d != "" {
 		res += " " + d
+	}
+	if leaked {
+		res += " FD-LEAK" // an *Archive* form returned without closing the archive file
 	}
 	for _, esc := range []string{"/tmp/c19esc", "/c19esc"} {
 		if _, e := os.Lstat(esc); e == nil {
@@ -171,7 +225,26 @@ func cleanup(t string) {
 	_ = os.RemoveAll(t)
 }
 
-func buildTar(entries []entry) (*tar.Reader, bool) {
+// countFDs is the number of open descriptors of the harness (the harness is single-threaded between the two counts).
+func countFDs() int {
+	d, err := os.Open("/proc/self/fd")
+	if err != nil {
+		return -1
+	}
+	defer d.Close()
+	names, _ := d.Readdirnames(-1)
+	return len(names)
+}
+
+func zipReader(raw []byte) *zip.Reader {
+	zr, err := zip.NewReader(bytes.NewReader(raw), int64(len(raw)))
+	if err != nil && zr == nil {
+		panic(err)
+	}
+	return zr
+}
+
+func buildTar(entries []entry) ([]byte, bool) {
 	var buf bytes.Buffer
 	tw := tar.NewWriter(&buf)
 	complete := true
@@ -218,10 +291,10 @@ loop:
 	if complete {
 		must(tw.Close())
 	}
-	return tar.NewReader(bytes.NewReader(buf.Bytes())), false
+	return buf.Bytes(), false
 }
 
-func buildZip(entries []entry) (*zip.Reader, bool) {
+func buildZip(entries []entry) ([]byte, bool) {
 	var buf bytes.Buffer
 	zw := zip.NewWriter(&buf)
 	corrupt := make([]bool, len(entries))
@@ -266,22 +339,14 @@ func buildZip(entries []entry) (*zip.Reader, bool) {
 	if err != nil && zr == nil {
 		return nil, true
 	}
-	any := false
 	for i, f := range zr.File {
 		if corrupt[i] {
 			off, oerr := f.DataOffset()
 			must(oerr)
 			b[off] ^= 0xff
-			any = true
 		}
 	}
-	if any {
-		zr, err = zip.NewReader(bytes.NewReader(b), int64(len(b)))
-		if err != nil && zr == nil {
-			return nil, true
-		}
-	}
-	return zr, false
+	return b, false
 }
 
 type node struct {
